@@ -85,7 +85,12 @@ def run(ctx):
     # pure functions have no memory: the same registry lookups as the *first* call of a fresh process (no earlier call can have
     # warmed or poisoned anything), in every configuration, must answer what they answer in the middle of a long run
     ids = [0, 1, 0x2f, 0x35, 0x9c, 0x1301, 0x1303, 0x5600, 0xc02f, 0xcca8, 0xffff, 0x0a0a] + [rng.randrange(65536) for _ in range(20)]
-    reg = ['cs_id %d' % i for i in ids] + ['cs_row %d' % i for i in ids[:8]] + ['keybits %d' % g for g in (0, 23, 28, 29, 65535)] + ['disp TlsVersion 771', 'disp NamedGroup 0']
+    names18 = ['TLS_AES_128_GCM_SHA256', 'TLS_RSA_WITH_AES_128_CBC_SHA', 'TLS_ECDHE_RSA_WITH_AES_128_GCM_SHA256', 'TLS_NOT_A_SUITE']
+    inter = []
+    for i in ids[:16]:
+        for nm in names18:
+            inter += ['cs_id %d' % i, 'cs_name %s' % core.hexs(nm.encode()), 'cs_id %d' % i]
+    reg = inter + ['cs_id %d' % i for i in ids] + ['cs_row %d' % i for i in ids[:8]] + ['keybits %d' % g for g in (0, 23, 28, 29, 65535)] + ['disp TlsVersion 771', 'disp NamedGroup 0']
     fresh = {c: core.run_lines(exes[c], reg, chunk=1) for c in exes}
     warm = {c: core.run_lines(exes[c], reg[::-1] + reg)[len(reg):] for c in exes}
     for k, ln in enumerate(reg):
